@@ -1,3 +1,4 @@
 SPECIFICATION Spec
+CONSTANT BudgetCoherence = 3
 POSTCONDITION Accepted
 CHECK_DEADLOCK FALSE
